@@ -53,6 +53,27 @@ EXPLANATION = ("theorems: position arithmetic of the generator = bisect (C05_pos
                "well-formed at the end and at every yield")
 
 VALS = [1, 2, 5, 7, -3]
+# a's leaf default None ("no empty value": a stored 0 is an ordinary element) is generated as this
+# sentinel, which never occurs as a payload: in the model "the default never occurs" is "nothing
+# is empty".  z's default stays a number: the body accumulates onto it.
+NONE_D = -999983
+
+
+def est_shapes(a, n):
+    """rank shapes of a tensor built without shape=: 1 + largest stored coordinate per rank"""
+    out = [0] * n
+
+    def walk(t, lvl):
+        for c, s in t:
+            out[lvl] = max(out[lvl], c + 1)
+            if not isinstance(s, int):
+                walk(s, lvl + 1)
+    walk(a, 0)
+    return out
+
+
+def a_shapes(case):
+    return est_shapes(case["a"], case["n"]) if case.get("est") else case["shape"]
 
 
 # ------------------------------------------------------------------ generator
@@ -63,7 +84,7 @@ def presents(aes, lvl, case):
     if case["U"][lvl]:
         d = dict((c, s) for c, s in aes)
         dflt = da if lvl + 1 == n else []
-        return [(c, d.get(c, dflt)) for c in range(case["shape"][lvl])]
+        return [(c, d.get(c, dflt)) for c in range(a_shapes(case)[lvl])]
     return [(c, s) for c, s in aes if not U.is_empty_lit(s, da)]
 
 
@@ -122,13 +143,13 @@ def merge_lit(z, a, rng, dz, vals=None, keep=1.0):
     return [[c, dzs[c]] for c in sorted(dzs)]
 
 
-def gen_case(rng, n=None, mode=None, maxshape=None, p_ref=0.0):
+def gen_case(rng, n=None, mode=None, maxshape=None, p_ref=0.0, est=None, p_U=0.2):
     n = n or rng.choice([1, 2, 2, 3])
     hi = maxshape or {1: 7, 2: 5, 3: 3}[n]
     shape = [rng.randint(2, hi) for _ in range(n)]
     dz = rng.choice([0, 0, 0, 2])
-    da = rng.choice([0, 0, 0, 1])
-    a = U.gen_fiber(rng, n, shape, da, p_absent=rng.choice([0.0, 0.2, 0.4, 0.6, 0.9]))
+    da = rng.choice([0, 0, 0, 1, NONE_D])
+    a = U.gen_fiber(rng, n, shape, 0 if da == NONE_D else da, p_absent=rng.choice([0.0, 0.2, 0.4, 0.6, 0.9]))
     mode = mode or rng.choice(["empty", "random", "random", "disjoint", "superset", "same-shape",
                                "dflt-offered", "dflt-offered"])
     z = U.gen_fiber(rng, n, shape, dz)
@@ -145,8 +166,11 @@ def gen_case(rng, n=None, mode=None, maxshape=None, p_ref=0.0):
         # explicit defaults of z at coordinates a offers (the body often leaves them), other
         # elements of z in between and after
         z = merge_lit(z, a, rng, dz, vals=[dz, dz, dz, 4], keep=0.6)
-    us = [rng.random() < 0.2 for _ in range(n)] if rng.random() < 0.5 else [False] * n
-    case = {"n": n, "dz": dz, "da": da, "z": z, "a": a, "U": us, "shape": shape, "body": [], "zmode": mode}
+    us = [rng.random() < p_U for _ in range(n)] if (rng.random() < 0.5 or p_U > 0.2) else [False] * n
+    if est is None:
+        est = rng.random() < 0.25
+    case = {"n": n, "dz": dz, "da": da, "z": z, "a": a, "U": us, "shape": shape, "est": est, "body": [],
+            "zmode": mode}
     case["body"] = gen_body(rng, case, p_ref=p_ref)
     return case
 
@@ -157,6 +181,9 @@ def streams(tier, rng):
     # bodies that also call getPayloadRef below an offered interior reference (often writing the default)
     nr = 120 if tier == "quick" else 1500
     yield ("refbelow", [gen_case(rng, n=rng.choice([2, 3, 3]), p_ref=0.4) for _ in range(nr)], False)
+    # a built without a declared shape (rank shapes estimated from ragged fibers), uncompressed ranks
+    ne = 100 if tier == "quick" else 1500
+    yield ("estimated-U", [gen_case(rng, n=rng.choice([1, 2, 2, 3]), est=True, p_U=0.6) for _ in range(ne)], False)
     # single-level destination fibers with every class of element against a fixed source and every body
     cases = []
     elems = [None, 0, 4]                       # absent / explicit default / value
@@ -188,6 +215,7 @@ def describe(case):
             "z_empty_subfiber": U.has_empty_sub(case["z"], case["dz"]),
             "writes_default": any(a[0] == "assign" and a[1] == case["dz"] for _, a in case["body"]),
             "refbelow": any(a[0] == "refbelow" for _, a in case["body"]),
+            "a_est_shape": bool(case.get("est")), "a_default_none": case["da"] == NONE_D,
             "offered": min(len(case["body"]), 9)}
 
 
@@ -233,9 +261,9 @@ def act_coq(a):
 
 def case_to_coq(c):
     body = L.lst("(%s, %s)" % (L.zlist(p), act_coq(a)) for p, a in c["body"])
-    return "(Build_c05_case %s %s %s %s %s %s %s %s)" % (
+    return "(Build_c05_case %s %s %s %s %s %s %s %s %s)" % (
         L.nat(c["n"]), L.z(c["dz"]), L.z(c["da"]), L.tree(c["z"]), L.tree(c["a"]),
-        L.lst(L.b(u) for u in c["U"]), L.zlist(c["shape"]), body)
+        L.lst(L.b(u) for u in c["U"]), L.zlist(c["shape"]), L.b(c.get("est", False)), body)
 
 
 # ------------------------------------------------------------------ implementation side
@@ -248,16 +276,22 @@ def pay(p):
     while isinstance(p, Payload):
         p = p.value
         k += 1
+    if p is None and k == 0:
+        return NONE_D            # the default of a rank whose default is None, unboxed
     if k != 1:
         return [-2, k]
-    return p
+    return U.undress(p)
 
 
 def run_impl(case):
     n = case["n"]
     # z's ranks are larger than a's so that "z takes a's active range" is visible
     Z = U.build_tensor(case["z"], n, [s + 2 for s in case["shape"]], case["dz"])
-    A = U.build_tensor(case["a"], n, case["shape"], case["da"], name="A")
+    none_d = case["da"] == NONE_D
+    A = U.build_tensor(case["a"], n, None if case.get("est") else case["shape"], 0 if none_d else case["da"],
+                       name="A")
+    if none_d:
+        A.setDefault(None)
     for rid, u in zip(A.getRankIds(), case["U"]):
         if u:
             A.setFormat(rid, "U")
